@@ -6,7 +6,7 @@ From Coq Require Import List NArith ZArith Bool Lia.
 Import ListNotations.
 Require Import RV.Model.C20_Sbor RV.Model.C22_Types RV.Gen.C22_wellknown RV.Model.C22_Schema
                RV.Model.C23_SchemaCmp RV.Proof.C20_Base RV.Proof.C20_Sbor RV.Proof.C22_Schema
-               RV.Proof.C23_Sim.
+               RV.Proof.C23_Sim RV.Proof.C22_Stream.
 Open Scope N_scope.
 
 (* ------------------------------------------------------------------------------------------ *)
@@ -742,4 +742,29 @@ Proof.
   rewrite <- !validates_spec in E.
   destruct (validates base a v), (validates compared b v); try reflexivity; destruct E as [E1 E2];
     [discriminate (E1 eq_refl)|discriminate (E2 eq_refl)].
+Qed.
+
+(* the same for the streaming validator model (Model/C22_Typed.v), via C22's streaming_iff_validates *)
+Theorem fixed_extension_sound_streaming : forall st base compared roots,
+  compare_fixed st base compared roots = CmpOk [] ->
+  forall a b, In (a, b) roots -> forall md p, 1 <= md ->
+  RV.Model.C22_Typed.validate_payload base a md p = RV.Model.C22_Typed.POk ->
+  RV.Model.C22_Typed.validate_payload compared b md p = RV.Model.C22_Typed.POk.
+Proof.
+  intros st base compared roots H a b Hin md p Hmd V.
+  apply RV.Proof.C22_Stream.streaming_iff_validates; [exact Hmd|].
+  apply RV.Proof.C22_Stream.streaming_iff_validates in V; [|exact Hmd].
+  eapply fixed_extension_sound_payload; eassumption.
+Qed.
+Theorem fixed_equality_sound_streaming : forall st base compared roots,
+  allow_new_enum_variants st = false -> allow_replacing_with_any st = false ->
+  allow_validation_weakening st = false ->
+  compare_fixed st base compared roots = CmpOk [] ->
+  forall a b, In (a, b) roots -> forall md p, 1 <= md ->
+  (RV.Model.C22_Typed.validate_payload base a md p = RV.Model.C22_Typed.POk <->
+   RV.Model.C22_Typed.validate_payload compared b md p = RV.Model.C22_Typed.POk).
+Proof.
+  intros st base compared roots NV NA NW H a b Hin md p Hmd.
+  rewrite !RV.Proof.C22_Stream.streaming_iff_validates by exact Hmd.
+  rewrite (fixed_equality_sound_payload st base compared roots NV NA NW H a b Hin md p). tauto.
 Qed.
